@@ -393,3 +393,40 @@ Definition is_request (m : msg) : bool := (m_type m =? REQUEST) || (m_type m =? 
 Definition freed (evs : list event) : list N :=
   flat_map (fun e => match e with EvFreeReq q => [q] | _ => [] end) evs.
 Definition cntN (x : N) (l : list N) : nat := length (filter (fun y => y =? x) l).
+
+(* ---- several channels in one process: the product machine ---- *)
+Section Multi.
+Variable decode : list N -> option msg.
+Variable method_kind : list N -> N.
+Variable req_ok : list N -> bool.
+Variable service : list N -> list N -> option sres.
+
+Fixpoint upd {A} (i : nat) (x : A) (l : list A) : list A :=
+  match l, i with
+  | [], _ => []
+  | _ :: r, O => x :: r
+  | y :: r, S j => y :: upd j x r
+  end.
+
+(* one step of channel number (fst io); the other channels are not touched *)
+Definition mstep (s : list (frame * rpc)) (io : nat * op) : list (frame * rpc) * list (nat * event) :=
+  match nth_error s (fst io) with
+  | None => (s, [])
+  | Some (f, r) =>
+    let '(f', r', evs) := step decode method_kind req_ok service f r (snd io) in
+    (upd (fst io) (f', r') s, map (pair (fst io)) evs)
+  end.
+
+Fixpoint mrun (s : list (frame * rpc)) (ops : list (nat * op)) : list (frame * rpc) * list (nat * event) :=
+  match ops with
+  | [] => (s, [])
+  | io :: rest =>
+    let '(s1, evs) := mstep s io in
+    let '(s2, evs2) := mrun s1 rest in
+    (s2, evs ++ evs2)
+  end.
+End Multi.
+
+(* what belongs to channel i in an interleaved history / trace *)
+Definition proj {A} (i : nat) (l : list (nat * A)) : list A :=
+  map snd (filter (fun p => Nat.eqb (fst p) i) l).
